@@ -124,7 +124,10 @@ def all_refs_valid(hc, t, obj, cache, fails, ctx, what, seen=None, depth=0):
                 all_refs_valid(hc, ft, getattr(obj, n), cache, fails, ctx, what, seen, depth + 1)
     elif k == "array":
         shape = [int(x) for x in obj._shape]
-        for idx in itertools.islice(itertools.product(*[range(s) for s in shape]), 8):
+        if any(s_ < 0 or s_ > 1 << 32 for s_ in shape):
+            fails.append(common.Failure("oracle", "C06:shape-garbage", f"{what}: an array reached from the object reports the shape {shape}", ctx))
+            return
+        for idx in itertools.islice(np.ndindex(*shape), 8):
             if t[1][0] in ("ref", "uref"):
                 check_ref_slot(hc, t[1], obj, (("i", idx),), cache, fails, ctx, what, depth)
             elif t[1][0] in ("struct", "array"):
@@ -844,6 +847,45 @@ def corpus_ref_convertible(R, r):
         R.fail("C08:bind-raises:" + type(ex).__name__, f"binding a Float64[3] to Ref[Float64[:]]: {str(ex)[:160]}", ctx)
 
 
+def corpus_copy_twice(R, r):
+    """two copies of a reference-holding object into the SAME other buffer with writes in between (oracle only): every copy
+    duplicates the referent as it is NOW, and the duplicates are independent of each other and of the source"""
+    xo = common.import_xobjects()
+    uid = next(_rd_uid)
+    leaf = type(xo.Struct)(f"Ct{uid}Leaf", (xo.Struct,), {"v": xo.Int64, "w": xo.Float64[:]})
+    hold = type(xo.Struct)(f"Ct{uid}Hold", (xo.Struct,), {"k": xo.Int64, "p": xo.Ref[leaf], "q": xo.Ref[leaf][2]})
+    ctx = {"component": "heap", "corpus": "copy-twice-into-one-buffer"}
+    for dst_same_ctx in (True, False):
+        ctx0 = xo.ContextCpu()
+        b0, b1 = ctx0.new_buffer(64), (ctx0 if dst_same_ctx else xo.ContextCpu()).new_buffer(32)
+        try:
+            l1 = leaf(v=5, w=[1.0, 2.0, 3.0], _buffer=b0)
+            src = hold(k=4, p=l1, q=[l1, None], _buffer=b0)
+            c1 = hold(src, _buffer=b1)
+            src.p.v = 10
+            src.p.w[1] = -2.0
+            c2 = hold(src, _buffer=b1)
+            c3 = hold(c1, _buffer=b1)              # a copy of the first copy, same buffer: shares c1's referent
+            got = [(int(x.k), int(x.p.v), [float(y) for y in x.p.w], None if x.q[0] is None else int(x.q[0].v), x.q[1]) for x in (src, c1, c2, c3)]
+            want = [(4, 10, [1.0, -2.0, 3.0], 10, None), (4, 5, [1.0, 2.0, 3.0], 5, None), (4, 10, [1.0, -2.0, 3.0], 10, None),
+                    (4, 5, [1.0, 2.0, 3.0], 5, None)]
+            if got != want:
+                R.fail("C09:second-copy-not-equal", f"Hold{{k, p: Ref[Leaf], q: Ref[Leaf][2]}}: source, 1st copy, 2nd copy (after a write "
+                       f"through the source's reference), copy of the 1st copy - all but the source in one other buffer - read {got}, expected {want}", ctx)
+            if int(c1.p._offset) == int(c2.p._offset) or c2.p._buffer is not b1 or c1.p._buffer is not b1:
+                R.fail("C09:referent-shared-between-copies", f"the referents of two copies into one other buffer are at {int(c1.p._offset)} and "
+                       f"{int(c2.p._offset)} (buffers ok: {c1.p._buffer is b1}, {c2.p._buffer is b1})", ctx)
+            if int(c3.p._offset) != int(c1.p._offset):
+                R.fail("C09:referent-duplicated-in-same-buffer", f"a copy of a copy in the same buffer refers to {int(c3.p._offset)}, its source to {int(c1.p._offset)}", ctx)
+            c1.p.v = 77
+            if int(c2.p.v) != 10 or int(src.p.v) != 10 or int(c3.p.v) != 77:
+                R.fail("C09:write-shows-through", f"a write through the 1st copy's reference: 2nd copy reads {int(c2.p.v)}, source {int(src.p.v)}, "
+                       f"the copy sharing the referent {int(c3.p.v)}", ctx)
+        except Exception as ex:
+            R.fail("C09:copy-raises:" + type(ex).__name__, f"copy twice into one buffer: {type(ex).__name__}: {str(ex)[:160]}", ctx)
+        R.tags["corpus.copy-twice"] += 1
+
+
 def run_all(tier, seed, n=None):
     r = random.Random(seed * 999331 + 29)
     R = L.Run()
@@ -853,6 +895,7 @@ def run_all(tier, seed, n=None):
     corpus_ref_struct(R, r)
     corpus_ref_defaults(R, r)
     corpus_ref_convertible(R, r)
+    corpus_copy_twice(R, r)
     for _ in range(n):
         run_case(R, r)
     cases, cur = [], []
